@@ -74,13 +74,13 @@ theorem valid_acceptBlock (P : Params) (s : NState) (b : Block) (h : Valid P s) 
           exact ⟨this.1, this.2⟩
         | none => exact h
       · unfold sideOrReorg
-        have hk : Valid P { s with known := b :: s.known } := h
+        have hk : Valid P (addKnown s b) := h
         split
         · exact hk
         · split
           · exact hk
-          · have hg := valid_reorganize P { s with known := b :: s.known }
-              (reorgPlan { s with known := b :: s.known } b).1 (reorgPlan { s with known := b :: s.known } b).2 hk
+          · have hg := valid_reorganize P (addKnown s b)
+              (reorgPlan (addKnown s b) b).1 (reorgPlan (addKnown s b) b).2 hk
             simp only
             split
             · exact hg
